@@ -109,5 +109,6 @@ func runC06(r *Runner, tier string, rng *Rng) {
 		}
 	}
 	flush()
+	defer runC06Pipeline(r, tier, rng)
 	r.St.Rule = "expiry strings: valid stamps from year 0000 to 9999, stamps 10 s .. 400 days around now on either side, forms Go accepts beyond the layout (1-digit hour, fractional seconds), other date layouts, calendar edge cases, single-character mutations; 16 strings per evaluation; compared: parse verdict (through ValidateMetablock) and VerifyLayoutExpiration verdict against the clock. Class = batch verdict vector."
 }
